@@ -8,7 +8,11 @@ import (
 	"os"
 	"path/filepath"
 	"sort"
+	"strings"
 
+	"go/types"
+
+	"golang.org/x/tools/go/packages"
 	"golang.org/x/tools/go/ssa"
 )
 
@@ -21,6 +25,12 @@ import (
 
 // declNames: receiver, parameters, named results, then every identifier introduced in the body, in source order.
 func declNames(fn *ssa.Function) []string {
+	n, _ := declNamesTypes(fn, nil)
+	return n
+}
+
+// declNamesTypes also gives each declaration's type (as text; "" when info is nil or has no entry).
+func declNamesTypes(fn *ssa.Function, info *types.Info) ([]string, []string) {
 	var ft *ast.FuncType
 	var body *ast.BlockStmt
 	var recv *ast.FieldList
@@ -30,13 +40,58 @@ func declNames(fn *ssa.Function) []string {
 	case *ast.FuncLit:
 		ft, body = n.Type, n.Body
 	default:
-		return nil
+		return nil, nil
 	}
-	var out []string
+	var out, tys []string
+	how := "param" // how the declaration gets its first value: disambiguates declarations of one type
 	add := func(id *ast.Ident) {
 		if id != nil && id.Name != "_" {
 			out = append(out, id.Name)
+			t := ""
+			if info != nil {
+				if o := info.Defs[id]; o != nil && o.Type() != nil {
+					t = types.TypeString(o.Type(), nil)
+				}
+			}
+			tys = append(tys, t+" <- "+how)
 		}
+	}
+	initOf := func(x ast.Expr) string {
+		switch v := x.(type) {
+		case *ast.CallExpr:
+			switch f := v.Fun.(type) {
+			case *ast.Ident:
+				return "call " + f.Name
+			case *ast.SelectorExpr:
+				if q, ok := f.X.(*ast.Ident); ok {
+					return "call " + q.Name + "." + f.Sel.Name
+				}
+				return "call ." + f.Sel.Name
+			}
+			return "call"
+		case *ast.CompositeLit:
+			return "literal"
+		case *ast.BasicLit:
+			return "constant"
+		case *ast.IndexExpr:
+			return "element"
+		case *ast.UnaryExpr:
+			if v.Op == token.AND {
+				return "address"
+			}
+			return "unary"
+		case *ast.BinaryExpr:
+			return "binary " + v.Op.String()
+		case *ast.FuncLit:
+			return "func"
+		case *ast.TypeAssertExpr:
+			return "assert"
+		case *ast.SelectorExpr:
+			return "field " + v.Sel.Name
+		case *ast.Ident:
+			return "copy"
+		}
+		return "expr"
 	}
 	fields := func(fl *ast.FieldList) {
 		if fl == nil {
@@ -48,13 +103,16 @@ func declNames(fn *ssa.Function) []string {
 			}
 		}
 	}
+	how = "receiver"
 	fields(recv)
 	if ft != nil {
+		how = "param"
 		fields(ft.Params)
+		how = "result"
 		fields(ft.Results)
 	}
 	if body == nil {
-		return out
+		return out, tys
 	}
 	ast.Inspect(body, func(n ast.Node) bool {
 		switch x := n.(type) {
@@ -62,29 +120,58 @@ func declNames(fn *ssa.Function) []string {
 			return false
 		case *ast.AssignStmt:
 			if x.Tok == token.DEFINE {
-				for _, l := range x.Lhs {
+				for k, l := range x.Lhs {
 					if id, ok := l.(*ast.Ident); ok {
+						how = "multi"
+						if len(x.Rhs) == len(x.Lhs) {
+							how = initOf(x.Rhs[k])
+						} else if len(x.Rhs) == 1 {
+							how = fmt.Sprintf("%s #%d", initOf(x.Rhs[0]), k)
+						}
 						add(id)
 					}
 				}
 			}
 		case *ast.ValueSpec:
-			for _, id := range x.Names {
+			for k, id := range x.Names {
+				how = "var"
+				if len(x.Values) == len(x.Names) {
+					how = initOf(x.Values[k])
+				}
 				add(id)
 			}
 		case *ast.RangeStmt:
 			if x.Tok == token.DEFINE {
 				if id, ok := x.Key.(*ast.Ident); ok {
+					how = "element index"
 					add(id)
 				}
 				if id, ok := x.Value.(*ast.Ident); ok {
+					how = "element"
 					add(id)
 				}
 			}
 		}
 		return true
 	})
-	return out
+	return out, tys
+}
+
+func (w *World) infoFor(fn *ssa.Function) *types.Info {
+	for fn.Parent() != nil {
+		fn = fn.Parent()
+	}
+	if fn.Pkg == nil {
+		return nil
+	}
+	var found *types.Info
+	packages.Visit(w.Pkgs, func(p *packages.Package) bool {
+		if found == nil && p.Types == fn.Pkg.Pkg {
+			found = p.TypesInfo
+		}
+		return found == nil
+	}, nil)
+	return found
 }
 
 // WriteNames regenerates lib/locals.json from the current tree (run on the unchanged tree whenever contracts or the
@@ -99,15 +186,16 @@ func WriteNames(repo, verif string) error {
 		return err
 	}
 	out := map[string][]string{}
+	outT := map[string][]string{}
 	for key, fn := range w.funcsByKey {
 		if w.ContractFor(fn) == nil || fn.Syntax() == nil {
 			continue
 		}
 		_ = key
-		out[fn.String()] = declNames(fn)
+		out[fn.String()], outT[fn.String()] = declNamesTypes(fn, w.infoFor(fn))
 		for p := fn.Parent(); p != nil; p = p.Parent() {
 			if p.Syntax() != nil {
-				out[p.String()] = declNames(p) // captured variables of a function literal are its parents' locals
+				out[p.String()], outT[p.String()] = declNamesTypes(p, w.infoFor(p)) // captured variables of a function literal are its parents' locals
 			}
 		}
 	}
@@ -116,19 +204,19 @@ func WriteNames(repo, verif string) error {
 		keys = append(keys, k)
 	}
 	sort.Strings(keys)
-	ordered := make([]struct {
-		Func  string   `json:"func"`
-		Names []string `json:"names"`
-	}, 0, len(keys))
+	ordered := make([]recRow, 0, len(keys))
 	for _, k := range keys {
-		ordered = append(ordered, struct {
-			Func  string   `json:"func"`
-			Names []string `json:"names"`
-		}{k, out[k]})
+		ordered = append(ordered, recRow{k, out[k], outT[k]})
 	}
 	data, _ := json.MarshalIndent(ordered, "", " ")
 	fmt.Printf("govc names: %d functions under contract\n", len(ordered))
 	return os.WriteFile(filepath.Join(verif, "lib", "locals.json"), data, 0o644)
+}
+
+type recRow struct {
+	Func  string   `json:"func"`
+	Names []string `json:"names"`
+	Types []string `json:"types"`
 }
 
 func propPackagesAll(repo string) ([]string, error) {
@@ -151,17 +239,21 @@ func propPackagesAll(repo string) ([]string, error) {
 }
 
 // renamesFor: recorded name -> current name for fn, or nil.
+//
+// The recorded and the current declaration lists are aligned (longest common subsequence, a pair may match only when
+// the two declarations have the same type; a pair with the same name counts more than a pair that only agrees on
+// the type). A recorded name that no longer exists in the function and is aligned with a name the recording does not
+// know is read as renamed. Declarations that were added (an explicit loop counter) or removed stay unaligned.
 func (w *World) renamesFor(fn *ssa.Function) map[string]string {
 	if w.recNames == nil {
 		w.recNames = map[string][]string{}
+		w.recTypes = map[string][]string{}
 		if data, err := os.ReadFile(filepath.Join(w.VerifDir, "lib", "locals.json")); err == nil {
-			var rows []struct {
-				Func  string   `json:"func"`
-				Names []string `json:"names"`
-			}
+			var rows []recRow
 			if json.Unmarshal(data, &rows) == nil {
 				for _, r := range rows {
 					w.recNames[r.Func] = r.Names
+					w.recTypes[r.Func] = r.Types
 				}
 			}
 		}
@@ -173,26 +265,9 @@ func (w *World) renamesFor(fn *ssa.Function) map[string]string {
 		}
 		return nil
 	}
-	cur := declNames(fn)
-	if len(cur) != len(rec) {
-		return nil
-	}
-	curSet := map[string]bool{}
-	for _, n := range cur {
-		curSet[n] = true
-	}
-	var m map[string]string
-	for i := range rec {
-		if rec[i] != cur[i] && !curSet[rec[i]] {
-			if m == nil {
-				m = map[string]string{}
-			}
-			if prev, dup := m[rec[i]]; dup && prev != cur[i] {
-				return nil // the same recorded name would map to two different names: do not guess
-			}
-			m[rec[i]] = cur[i]
-		}
-	}
+	recT := w.recTypes[fn.String()]
+	cur, curT := declNamesTypes(fn, w.infoFor(fn))
+	m := alignNames(rec, recT, cur, curT)
 	if fn.Parent() != nil {
 		// captured variables are the enclosing function's locals
 		for o, n := range w.renamesFor(fn.Parent()) {
@@ -202,6 +277,97 @@ func (w *World) renamesFor(fn *ssa.Function) map[string]string {
 			if _, have := m[o]; !have {
 				m[o] = n
 			}
+		}
+	}
+	return m
+}
+
+func alignNames(rec, recT, cur, curT []string) map[string]string {
+	same := len(rec) == len(cur)
+	if same {
+		for i := range rec {
+			if rec[i] != cur[i] {
+				same = false
+			}
+		}
+	}
+	if same {
+		return nil
+	}
+	curSet, recSet := map[string]bool{}, map[string]bool{}
+	for _, n := range cur {
+		curSet[n] = true
+	}
+	for _, n := range rec {
+		recSet[n] = true
+	}
+	typ := func(ts []string, i int) string {
+		if i < len(ts) {
+			return ts[i]
+		}
+		return ""
+	}
+	split := func(s string) (string, string) {
+		if k := strings.Index(s, " <- "); k >= 0 {
+			return s[:k], s[k+4:]
+		}
+		return s, ""
+	}
+	score := func(i, j int) int {
+		ti, hi := split(typ(recT, i))
+		tj, hj := split(typ(curT, j))
+		if ti != tj {
+			return -1
+		}
+		if rec[i] == cur[j] {
+			return 8
+		}
+		if !curSet[rec[i]] && !recSet[cur[j]] {
+			if hi == hj {
+				return 3 // same type, same kind of initialiser
+			}
+			return 2
+		}
+		return -1
+	}
+	n, k := len(rec), len(cur)
+	dp := make([][]int, n+1)
+	for i := range dp {
+		dp[i] = make([]int, k+1)
+	}
+	for i := n - 1; i >= 0; i-- {
+		for j := k - 1; j >= 0; j-- {
+			best := dp[i+1][j]
+			if dp[i][j+1] > best {
+				best = dp[i][j+1]
+			}
+			if sc := score(i, j); sc > 0 && dp[i+1][j+1]+sc > best {
+				best = dp[i+1][j+1] + sc
+			}
+			dp[i][j] = best
+		}
+	}
+	var m map[string]string
+	i, j := 0, 0
+	for i < n && j < k {
+		sc := score(i, j)
+		switch {
+		case sc > 0 && dp[i][j] == dp[i+1][j+1]+sc:
+			if rec[i] != cur[j] {
+				if m == nil {
+					m = map[string]string{}
+				}
+				if prev, dup := m[rec[i]]; dup && prev != cur[j] {
+					return nil // the same recorded name would map to two different names: do not guess
+				}
+				m[rec[i]] = cur[j]
+			}
+			i++
+			j++
+		case dp[i][j] == dp[i+1][j]:
+			i++
+		default:
+			j++
 		}
 	}
 	return m
